@@ -41,6 +41,10 @@ def run_api(job):
         if api == "cd-incremental":
             # the Control object is used in one computation, then extended, then used again
             return eng.run_case({"case": case, "variant": {"start": start, "dt": DT, "incremental": True}, "seed": seed})
+        if api == "cd-reused":
+            # the same Control object served a computation with another start time before (a continued run)
+            return eng.run_case({"case": case, "variant": {"start": start, "dt": DT, "reused": 1 + (len(case["ctl"]) % 2)},
+                                 "seed": seed})
         us = eng.step_unitaries(case)
         halves = {k: eng.superop(v) for k, v in us.items()}
         ctrl = eng.build_control(case, DT, start) if case["ctl"] else None
@@ -191,6 +195,8 @@ def run(ctx):
             apis = ["cd"]
             if len(case["ctl"]) >= 2 and idx % 2 == 0:
                 apis.append("cd-incremental")
+            if case["ctl"] and idx % 4 == 1:
+                apis.append("cd-reused")
             if idx % 3 == 0:
                 apis.append("cdf")
             if idx % 3 == 1:
